@@ -30,7 +30,7 @@ ASSUMPTIONS = [
     "the same exception class in every process",
 ]
 REQUIRED_COUNTERS = ["documents", "processes", "outputs.compared", "numbered_class_docs", "aimed_docs",
-                     "cli.compared", "json.compared", "seeds.distinct", "orders.reversed_and_solo"]
+                     "cli.compared", "cli.output_file_compared", "json.before_vs_after_python", "json.compared", "seeds.distinct", "orders.reversed_and_solo"]
 
 
 def plan(tier):
@@ -103,6 +103,13 @@ def aimed_doc(rng, serial):
         for idx in range(rng.randint(1, 3)):
             counter += 1
             root["definitions"][f"def{idx}"] = obj(counter)
+    # text outside ASCII (what is written must not depend on the locale of the process) ...
+    root["description"] = rng.choice(["ünï cödé 日本", "naïve café", "plain"])
+    if rng.random() < 0.4:
+        # ... and a model whose name is also a name of the generated module's own vocabulary
+        counter += 1
+        root["properties"]["vocab"] = {"type": "object", "title": rng.choice(["String", "List", "Any", "Object"]),
+                                       "properties": {"v": {"type": "string"}}}
     name = f"a{serial}_main.json"
     return {"files": {name: root}, "entry": name, "all_titled": False}
 
@@ -114,7 +121,7 @@ warnings.simplefilter("ignore")
 from json_ref_dict import RefDict, materialize
 from statham.__main__ import main
 from statham.schema.parser import parse
-from statham.serializers import serialize_json
+from statham.serializers import serialize_json, serialize_python
 from statham.serializers.orderer import get_object_classes
 from statham.titles import title_labeller
 out = {}
@@ -152,6 +159,15 @@ for path in sys.argv[2:]:
         doc = serialize_json(*elements)
         rec["json"] = hashlib.sha256(json.dumps(doc, default=repr).encode()).hexdigest()
         rec["names"] = [c.__name__ for c in get_object_classes(*elements)]
+        # the same elements again AFTER the Python module has been produced from them: what one serializer
+        # does must not show in what the other says (or in the names) afterwards
+        try:
+            serialize_python(*elements)
+        except Exception:
+            pass
+        again = serialize_json(*elements)
+        rec["json_after_python"] = hashlib.sha256(json.dumps(again, default=repr).encode()).hexdigest()
+        rec["names_after_python"] = [c.__name__ for c in get_object_classes(*elements)]
     except Exception as exc:
         rec["json"] = "raises:" + type(exc).__name__
     out[path] = rec
@@ -177,6 +193,27 @@ def run_cli(directory, path, seed):
         capture_output=True, timeout=300, env=env, cwd=directory,
     )
     return proc.returncode, hashlib.sha256(proc.stdout).hexdigest()
+
+
+C_LOCALE = {"LC_ALL": "C", "LANG": "C", "PYTHONUTF8": "0", "PYTHONCOERCECLOCALE": "0"}
+
+
+def run_cli_output(directory, path, seed, extra_env, tag):
+    """`python -m statham --input <doc> --output <file>`: the bytes written must not depend on the
+    process either (hash seed, and the locale the process inherits)."""
+    out_path = os.path.join(directory, f"out_{tag}_{os.path.basename(path)}.py")
+    env = dict(os.environ, PYTHONHASHSEED=seed, PYTHONPATH=bootstrap.REPO, PYTHONDONTWRITEBYTECODE="1", **extra_env)
+    proc = subprocess.run(
+        [bootstrap.PYTHON, "-W", "ignore", "-m", "statham", "--input", path, "--output", out_path],
+        capture_output=True, timeout=300, env=env, cwd=directory,
+    )
+    try:
+        with open(out_path, "rb") as handle:
+            digest = hashlib.sha256(handle.read()).hexdigest()
+        os.remove(out_path)
+    except OSError:
+        digest = "no-file"
+    return proc.returncode, digest
 
 
 def run_shard(ctx):
@@ -227,6 +264,14 @@ def run_shard(ctx):
             ctx.nontrivial(canon(doc["files"]))
         if first.get("numbered"):
             ctx.count("numbered_class_docs")
+        for label, rec in recs.items():
+            ctx.count("json.before_vs_after_python")
+            if "json_after_python" in rec and (rec["json_after_python"] != rec.get("json")
+                                               or rec["names_after_python"] != rec.get("names")):
+                ctx.witness("output_depends_on_process", {**case, "field": "json_after_python"},
+                            f"process {label}: the JSON serialization / class names of the same elements differ "
+                            f"before and after serialize_python: {rec.get('names')} vs {rec['names_after_python']}"[:400])
+                break
         if first.get("asm_same_names"):
             ctx.count("assembled.same_named_classes")
         for field in ("py", "json", "names", "pe", "asm"):
@@ -249,6 +294,14 @@ def run_shard(ctx):
             code, digest = run_cli(directory, path, seed)
             outs.setdefault((code, digest), []).append(seed)
         ctx.count("cli.compared")
+        files = {}
+        for tag, (seed, extra) in enumerate([(seeds[0], {}), (seeds[1 % len(seeds)], C_LOCALE), ("random", C_LOCALE)]):
+            files.setdefault(run_cli_output(directory, path, seed, extra, tag), []).append(
+                f"{seed}{'+C-locale' if extra else ''}")
+        ctx.count("cli.output_file_compared")
+        if len(files) > 1:
+            ctx.witness("cli_output_depends_on_process", {"files": doc["files"], "entry": doc["entry"], "route": "--output"},
+                        f"`--output` wrote {len(files)} distinct files: {list(files.items())}"[:400])
         if len(outs) > 1:
             ctx.witness("cli_output_depends_on_process", {"files": doc["files"], "entry": doc["entry"]},
                         f"`python -m statham --input` printed {len(outs)} distinct outputs: {list(outs.values())}")
